@@ -120,7 +120,16 @@ theorem groups_exact (ds : List PDigest) (gs : List Group) (h : groupDigests ds 
   unfold groupDigests at h
   have hm : ∀ x, x ∈ sortDigests ds ↔ x ∈ ds := fun x => by simp [sortDigests, List.mem_mergeSort]
   cases hs : sortDigests ds with
-  | nil => rw [hs] at h; simp at h
+  | nil =>
+    rw [hs] at h
+    simp only [Option.some.injEq] at h
+    subst h
+    have hds : ds = [] := by
+      have := congrArg List.length hs
+      simp only [sortDigests, List.length_mergeSort, List.length_nil] at this
+      exact List.eq_nil_of_length_eq_zero this
+    subst hds
+    simp
   | cons d rest =>
     rw [hs] at h
     simp only [Option.some.injEq] at h
@@ -482,7 +491,7 @@ theorem groupLoop_runs (ds : List PDigest) : ∀ (cur : Group) (r : PDigest),
 
 /-- `group_digests` on an already arranged (sorted) digest list -/
 def groupsOf : List PDigest → Option (List Group)
-  | [] => none
+  | [] => some []
   | d :: rest => some (groupLoop (newGroup d []) (d :: rest))
 
 theorem groupDigests_eq (ds : List PDigest) : groupDigests ds = groupsOf (sortDigests ds) := by
@@ -495,7 +504,9 @@ theorem groupsOf_runs (sd : List PDigest) (gs : List Group) (h : groupsOf sd = s
       (∀ d ∈ sd, dk d = gk g → Le5 d0 d) ∧ ∀ a, a ∈ g.proteins ↔ ∃ d ∈ sd, dk d = gk g ∧ d.protein = a) ∧
     (∀ d ∈ sd, ∃ g ∈ gs, dk d = gk g) := by
   cases sd with
-  | nil => simp [groupsOf] at h
+  | nil =>
+    simp only [groupsOf, Option.some.injEq] at h
+    subst h; simp
   | cons d rest =>
     simp only [groupsOf, Option.some.injEq] at h
     subst h
@@ -749,20 +760,12 @@ theorem digest_sort_irrelevant (cfg : Cfg Rat) (t : List (C05.Seq × C05.Seq)) (
     rw [hgt]; rfl
   unfold buildFrom
   cases h1 : groupsOf sd with
-  | none =>
-    cases sd with
-    | nil =>
-      have : sortDigests (fastaDigest cfg.par cfg.tag cfg.gen t) = [] := List.Perm.eq_nil (hp'.symm)
-      rw [this]; rfl
-    | cons d rest => simp [groupsOf] at h1
+  | none => cases sd <;> simp [groupsOf] at h1
   | some gs1 =>
     cases h2 : groupsOf (sortDigests (fastaDigest cfg.par cfg.tag cfg.gen t)) with
     | none =>
       cases hsd : sortDigests (fastaDigest cfg.par cfg.tag cfg.gen t) with
-      | nil =>
-        rw [hsd] at hp'
-        have : sd = [] := List.Perm.eq_nil hp'
-        subst this; simp [groupsOf] at h1
+      | nil => rw [hsd] at h2; simp [groupsOf] at h2
       | cons d rest => rw [hsd] at h2; simp [groupsOf] at h2
     | some gs2 =>
       simp only [Option.map_some, Option.some.injEq]
